@@ -319,6 +319,32 @@ theorem C07_minutes (c : Cfg) (hc : c.sites.Nodup) (i : Nat) (ds : List DayIn) (
       rw [← ((hm.1 hcp).2)]
       exact ih _ h'
 
+/-! ### the names used in DESIGN.md 5.7 / Appendix E -/
+
+theorem conservation (c : Cfg) (ops : List Op) (hc : c.sites.Nodup) (hok : RunOK c init ops) (d : DayIn) :
+    DayOK c (run c ops) d := C07_conservation c ops hc hok d
+
+theorem no_duplicates (c : Cfg) (ops : List Op) (hc : c.sites.Nodup) (hok : RunOK c init ops) :
+    Outstanding (run c ops) := C07_no_duplicates c ops hc hok
+
+theorem priority (c : Cfg) (ops : List Op) (hc : c.sites.Nodup) (hok : RunOK c init ops) :
+    Priority (run c ops) := C07_priority c ops hc hok
+
+/-- over the days of one survey the minutes add up: the running sum of the daily minutes (reset at
+each completion) is what the report holds, and on the day the survey completes the sum plus
+today's minutes is exactly the site's survey time -/
+theorem minutes_add_up (c : Cfg) (hc : c.sites.Nodup) (i : Nat) (ds : List DayIn) :
+    spentFrom c i init 0 ds = surveyedOf (runDays c ds) i ∧
+    (∀ d, completesOn c d (runDays c ds) i = true →
+        spentFrom c i init 0 ds + minutesOfDay c d (runDays c ds) i = (c.P i).surveyTime) := by
+  have h1 := (C07_minutes c hc i ds init inv_init).1
+  have h0 : surveyedOf init i = 0 := rfl
+  rw [h0] at h1
+  refine ⟨h1, ?_⟩
+  intro d hd
+  rw [h1]
+  exact (C07_minutes c hc i [] (runDays c ds) (inv_runDays c hc ds)).2 d hd
+
 /-! ### non-vacuity and a concrete multi-day history -/
 
 /-- two sites, one crew with capacity 1; day 1: site 1 is started (200 of 300 minutes), day 2: site 1
